@@ -119,6 +119,23 @@ let dispatch cmd r =
   | "ssd_spec" -> let m = next_z r in let f = next_arr r in let t = next_arr r in
       out_list (List.map (fun p -> ssd_spec m f t p) (all_positions f.shape))
   | "find2d" -> let f = next_arr r in let t = next_arr r in out_list (find2d f t)
+  | "lsum" -> let t = (match next r with "none" -> None | _ -> r.i <- r.i - 1; Some (next_ity r)) in
+      let m = next_z r in let a = next_list r in let l = next_list r in out_list (labeled_sum t m a l)
+  | "lmax" -> let s = next_z r in let m = next_z r in let a = next_list r in let l = next_list r in out_list (labeled_max s m a l)
+  | "lmin" -> let s = next_z r in let m = next_z r in let a = next_list r in let l = next_list r in out_list (labeled_min s m a l)
+  | "relabel" -> let l = next_list r in let (o, n) = relabel l in out_lists [o; [n]]
+  | "same_labeling" -> let a = next_list r in let b = next_list r in
+      out_list [zb (is_same_labeling a b); zb (same_labeling_spec a b)]
+  | "remove_regions" -> let l = next_list r in let g = next_list r in out_list (remove_regions l g)
+  | "borders" -> let m = next_z r in let f = next_arr r in let bc = next_arr r in
+      out_lists [borders m f bc; List.map (fun p -> zb (borders_spec m f bc p)) (all_positions f.shape)]
+  | "border" -> let f = next_arr r in let bc = next_arr r in let i = next_z r in let j = next_z r in out_list (border f bc i j)
+  | "bbox" -> let f = next_arr r in
+      out_lists [bbox_generic f; (if List.length f.shape = 2 then bbox_fast2 f else bbox_generic f); bbox_spec f]
+  | "bbox_labeled" -> let f = next_arr r in let n = next_z r in out_lists (bbox_labeled_spec f n)
+  | "hist" -> let l = next_list r in out_list (fullhistogram l)
+  | "com" -> let f = next_arr r in let lab = next_list r in let l = next_z r in
+      let (t, s) = com_sums f lab l in out_lists [[t]; s]
   | _ -> failwith ("unknown command " ^ cmd)
 
 let () =
